@@ -125,6 +125,13 @@ fn check_scan(ctx: &mut Ctx, w: &World, what: &str, res: &Result<Vec<Vec<EventRe
         if txs.len() > 1 { ctx.oracle_fail(&format!("C04:{}", w.key), &format!("{what} returned one group spanning several transactions"), &w.hist); return; }
     }
     if fwd {
+        // C04: an event is returned together with ALL of its siblings (of the scanned key, at/after the start)
+        for g in gs {
+            let Some(tx) = g.first().and_then(|e| w.spec.by_id.get(&e.event_id)).map(|s| s.tx) else { continue };
+            let siblings: Vec<u64> = want.iter().filter(|s| s.tx == tx && pos(s) >= from).map(pos).collect();
+            let got: Vec<u64> = g.iter().map(rpos).collect();
+            if got != siblings { ctx.oracle_fail(&format!("C04:{}", w.key), &format!("{what} forward from {from} returned the group {:?} of a transaction whose events there are {:?}: a transaction was returned partially", trunc(&got), trunc(&siblings)), &w.hist); return; }
+        }
         let flat: Vec<u64> = gs.iter().flatten().map(rpos).collect();
         let exp: Vec<u64> = want.iter().filter(|s| pos(s) >= from).map(pos).collect();
         if flat != exp { ctx.oracle_fail(&key3, &format!("{what} forward from {from}: returned positions {:?}, stored positions at/after it are {:?}", trunc(&flat), trunc(&exp)), &w.hist); }
@@ -137,6 +144,20 @@ fn check_scan(ctx: &mut Ctx, w: &World, what: &str, res: &Result<Vec<Vec<EventRe
     }
 }
 fn trunc(v: &[u64]) -> Vec<u64> { v.iter().take(24).copied().collect() }
+
+/// one stream scan on the real database, checked against the reference log (C03 / C04) and emitted for the model
+pub async fn scan_and_check_stream(ctx: &mut Ctx, w: &mut World, b: u16, stream: &str, from: u64, fwd: bool, batches: &[usize]) {
+    let bs = batches.iter().map(|x| x.to_string()).collect::<Vec<_>>().join("/");
+    let evs: Vec<SpecEvent> = w.spec.streams.get(&(b, stream.to_string())).map(|x| x.1.clone()).unwrap_or_default();
+    let pid = evs.first().map(|e| e.pid).unwrap_or(b);
+    let res = scan_stream(w, pid, stream, from, if fwd { IterDirection::Forward } else { IterDirection::Reverse }, batches).await;
+    let op = format!("st scan s b={b} {stream} {from} {} {bs}", if fwd { "f" } else { "r" });
+    w.hist.push(op.clone());
+    check_scan(ctx, w, &format!("stream scan of {stream}"), &res, &evs, from, fwd, |s| s.version, |e| e.stream_version);
+    if let Ok(gs) = &res { for g in gs { for e in g { if &*e.stream_id != stream { ctx.oracle_fail(&format!("C03:{}", w.key), "stream scan returned an event of another stream", &w.hist); } } } }
+    ctx.stat(if fwd { "scan_stream_fwd" } else { "scan_stream_rev" });
+    ctx.emit(&op, &match &res { Ok(gs) => format!("[{}]", show_groups(gs, w)), Err(_) => "err".into() });
+}
 
 pub async fn do_reads(ctx: &mut Ctx, w: &mut World, n: usize) {
     for _ in 0..n {
@@ -152,13 +173,8 @@ pub async fn do_reads(ctx: &mut Ctx, w: &mut World, n: usize) {
             let maxv = evs.last().map(|e| e.version).unwrap_or(0);
             let from = *ctx.rng.pick(&[0, 0, 1, maxv / 2, maxv.saturating_sub(1), maxv, maxv + 1, maxv + 7, u64::MAX]);
             let fwd = ctx.rng.chance(1, 2);
-            let res = scan_stream(w, pid, &stream, from, if fwd { IterDirection::Forward } else { IterDirection::Reverse }, &batches).await;
-            let op = format!("st scan s b={b} {stream} {from} {} {bs}", if fwd { "f" } else { "r" });
-            w.hist.push(op.clone());
-            check_scan(ctx, w, &format!("stream scan of {stream}"), &res, &evs, from, fwd, |s| s.version, |e| e.stream_version);
-            if let Ok(gs) = &res { for g in gs { for e in g { if &*e.stream_id != stream.as_str() { ctx.oracle_fail(&format!("C03:{}", w.key), "stream scan returned an event of another stream", &w.hist); } } } }
-            ctx.stat(if fwd { "scan_stream_fwd" } else { "scan_stream_rev" });
-            ctx.emit(&op, &match &res { Ok(gs) => format!("[{}]", show_groups(gs, w)), Err(_) => "err".into() });
+            let _ = (pid, &evs);
+            scan_and_check_stream(ctx, w, b, &stream, from, fwd, &batches).await;
         } else if k < 55 {
             let pids: Vec<u16> = w.spec.parts.keys().copied().collect();
             let pid = if !pids.is_empty() && ctx.rng.chance(9, 10) { pids[ctx.rng.below(pids.len() as u64) as usize] } else { 7 };
